@@ -297,6 +297,9 @@ package main
 //@   fncall bucket.Has requires ok && has(buckets, epochNumber) && bucket == buckets[epochNumber]
 //@   requires ctx != nil && held(multi.mu) == 0 && validEpochSet(multi) && multi.options != nil
 //@   ensures held(multi.mu) == 0
+//@   # C18 (all-not-found -> not found): the predicate handed to ErrorSlice.All (verified: true iff the predicate holds of EVERY
+//@   # element) is exactly "is a not-found error" (literal #3)
+//@   lit 3 ensures result0 <==> err != nil && isErr(err, ErrNotFound)
 //@   noframe
 
 //@ spec func inEpochSet(ser *MultiEpoch, e *Epoch) bool = exists q uint64 :: has(ser.epochs, q) && ser.epochs[q] == e
